@@ -8,7 +8,7 @@ callbacks).  Helper lemmas live in `NeoModel.Proofs.Tokens*`.
 `Inv nt l` (Proofs/TokensInv.lean) is the property's state invariant for the ledger `l`, `nt` being the account
 of the Notary contract; `inv_reading` below spells it out.
 -/
-import NeoModel.Proofs.TokensMachine
+import NeoModel.Proofs.TokensCand
 namespace NeoModel.Tokens
 
 /-- What `Inv` says, in the property's words: the NEO supply is exactly 100 000 000 and equals the sum of the
@@ -60,11 +60,52 @@ theorem transfer_false_unchanged (nt : Nat) (t : Tok) (e : Env) (l l' : Ledger) 
     (wit b : Bool) (hi : Inv nt l) (h : transferPre t e l src dst amt wit = .ret l' b) :
     b = false ∧ l'.neo = l.neo ∧ l'.neoSupply = l.neoSupply ∧ l'.gas = l.gas ∧ l'.gasSupply = l.gasSupply ∧
     l'.cands = l.cands ∧ l'.voters = l.voters ∧ l'.deps = l.deps := by
-  obtain ⟨⟨e1, e2, e3, e4, e5, e6, e7⟩, hb⟩ := transferPre_ret t e l src dst amt wit l' b hi h
+  obtain ⟨⟨e1, e2, e3, e4, e5, e6, e7⟩, hb, _⟩ := transferPre_ret t e l src dst amt wit l' b hi h
   exact ⟨hb, e1, e2, e3, e4, e5, e6, e7⟩
 
 -- non-vacuity: a transfer of more than the balance returns false and leaves the ledger as it was
 example : transferPre .neo ⟨9, 8, 1, 1, 0, [], 5, 0⟩ { neo := [(1, { bal := 3 })], neoSupply := 3 } 1 2 4 true =
     .ret { neo := [(1, { bal := 3 })], neoSupply := 3 } false := by rfl
+
+
+/-- `delta_eq_events`: take any reachable machine state, start a block, run any operations (transactions that
+HALT or FAULT, nested callbacks, OnPersist, PostPersist): for every token and every account the balance now
+minus the balance at the start of the block equals the net amount of the Transfer notifications collected
+since then — the notifications of faulted transactions having been dropped together with their state changes.
+(`base` is the ledger at the start of the latest block, `cur.events` the notifications of the successful
+executions of that block so far.) -/
+theorem delta_eq_events (nt : Nat) (s : St) (idx : Nat) (ops : List Op) (h : MInv nt s) (t : Tok) (a : Nat) :
+    let s' := run (step s (.block idx)) ops
+    balOf s'.cur t a - balOf s'.base t a = evNet t a s'.cur.events :=
+  (run_delta _ ops (step_inv s _ h) (block_dinv s idx)).cur t a
+
+-- non-vacuity: one block with a fee burn and a reward; account 5 burns 7 and is minted 3, net -4
+example :
+    let l : Ledger := { gas := [(5, 10)], gasSupply := 10, neoSupply := 100000000, neo := [(5, { bal := 100000000 })], gpb := [(0, 5)] }
+    let s := run (initSt ⟨9, 8, 1, 1, 0, [], 0, 0⟩ l) [.block 1, .onPersist 5 [] [⟨5, 4, 3, none, none⟩]]
+    balOf s.cur .gas 5 = 6 ∧ evNet .gas 5 s.cur.events = -4 := by decide
+
+/-- `candidate_record_iff`: on every state satisfying the invariant a candidate record exists iff the key is
+registered or NEO is voting for it — vote sums never dangle, and no record outlives its last vote unless
+registered. -/
+theorem candidate_record_iff (nt : Nat) (l : Ledger) (c : Nat) (h : Inv nt l) :
+    get l.cands c ≠ none ↔
+      ((∃ cd, get l.cands c = some cd ∧ cd.reg = true) ∨ 0 < sumBy (fun a => if a.vote = some c then a.bal else 0) l.neo) :=
+  candidate_record_iff' l c h
+
+/-- `candidate_removed_iff`: the two primitives that delete candidate records — ModifyAccountVotes on a balance
+change or vote withdrawal, and unregisterCandidate — delete the record iff after the update it is unregistered
+with zero votes, and they touch no other record (all other operations only `put` candidate records). -/
+theorem candidate_removed_iff (l : Ledger) (c : Nat) (cd : Cand) (hn : (keys l.cands).Nodup) (hg : get l.cands c = some cd) :
+    (∀ l1 acc v, acc.vote = some c → modVotes l acc v false = (l1, true) →
+        ((get l1.cands c = none ↔ (cd.reg = false ∧ cd.votes + v = 0)) ∧ ∀ c', c' ≠ c → get l1.cands c' = get l.cands c')) ∧
+    ((get (unregister l c true).1.cands c = none ↔ cd.votes = 0) ∧
+        ∀ c', c' ≠ c → get (unregister l c true).1.cands c' = get l.cands c') :=
+  ⟨fun l1 acc v hc h => modVotes_removed_iff l l1 acc v c cd hn hc hg h, unregister_removed_iff l c cd hn hg⟩
+
+-- non-vacuity: an unregistered candidate with 3 votes disappears when its only voter's 3 NEO leave
+example : (modVotes { cands := [(7, ⟨false, 3⟩)] } { bal := 3, vote := some 7 } (-3) false).1.cands = [] := by decide
+-- and a registered one stays with zero votes
+example : (modVotes { cands := [(7, ⟨true, 3⟩)] } { bal := 3, vote := some 7 } (-3) false).1.cands = [(7, ⟨true, 0⟩)] := by decide
 
 end NeoModel.Tokens
